@@ -20,7 +20,7 @@ func c13Value() string {
 // had been written in its place, in every kind of use site.
 func VerifC13Subst() {
 	v := c13Value()
-	site := nd.Choose("site", 0, 5)
+	site := nd.Choose("site", 0, 8)
 	var with, without string
 	switch site {
 	case 0: // alone as a label
@@ -33,6 +33,12 @@ func VerifC13Subst() {
 		with, without = "vars: {x: "+v+"}\na -> b: ${x}\na.label: ${x}\n", "vars: {x: "+v+"}\na -> b: "+v+"\na.label: "+v+"\n"
 	case 4: // innermost scope wins
 		with, without = "vars: {x: zz}\nc: {\n vars: {x: "+v+"}\n a: ${x}\n}\nd: ${x}\n", "vars: {x: zz}\nc: {\n vars: {x: "+v+"}\n a: "+v+"\n}\nd: zz\n"
+	case 6: // innermost scope wins inside double-quoted text and in a connection label
+		with, without = "vars: {x: zz}\nc: {\n vars: {x: "+v+"}\n a: \"p ${x}\"\n a -> b: \"${x} q\"\n}\nd: \"${x}\"\n", "vars: {x: zz}\nc: {\n vars: {x: "+v+"}\n a: \"p "+v+"\"\n a -> b: \""+v+" q\"\n}\nd: \"zz\"\n"
+	case 7: // two substitutions in one string, unquoted and double-quoted
+		with, without = "vars: {x: "+v+"; y: ww}\na: ${x} ${y}\nb: \"${y}${x}\"\n", "vars: {x: "+v+"; y: ww}\na: "+v+" ww\nb: \"ww"+v+"\"\n"
+	case 8: // a variable defined only in the outer scope, used from two levels down
+		with, without = "vars: {x: "+v+"}\nc: {\n vars: {y: ww}\n e: {\n  a: ${x} ${y}\n }\n}\n", "vars: {x: "+v+"}\nc: {\n vars: {y: ww}\n e: {\n  a: "+v+" ww\n }\n}\n"
 	case 5: // nested variable path
 		with, without = "vars: {y: {x: "+v+"}}\na: ${y.x}\n", "vars: {y: {x: "+v+"}}\na: "+v+"\n"
 	}
@@ -49,4 +55,10 @@ func VerifC13Single() {
 	name := nd.From("u", 1, "xyX")
 	_, ok2 := vCompile("vars: {x: "+v+"}\na: ${"+name+"}\n", nil)
 	nd.Assert(ok2 == (name == "x" || name == "X"), "a reference to an undefined variable is an error")
+	// an undefined variable after a defined one in the same string is still an error
+	_, ok4 := vCompile("vars: {x: "+v+"}\na: ${x} ${"+name+"}\nb: \"${x}${"+name+"}\"\n", nil)
+	nd.Assert(ok4 == (name == "x" || name == "X"), "an undefined variable is an error also when it follows a defined one in the same string")
+	// a path below a scalar variable names nothing: an error, not a crash
+	_, ok3 := vCompile("vars: {x: "+v+"}\na: ${x."+name+"}\n", nil)
+	nd.Assert(!ok3, "a reference below a scalar variable is an error")
 }
